@@ -7,7 +7,7 @@ import solverlib as sl
 
 GEN_SOURCES = ["skglm/solvers/common.py", "skglm/solvers/anderson_cd.py", "skglm/penalties/separable.py",
                "skglm/datafits/single_task.py", "skglm/utils/prox_funcs.py", "skglm/solvers/gram_cd.py"]
-EXTRA_TARGETS = ["Skel/MockACD.vo", "Gen/KernCD.vo", "Gen/KernACD.vo", "Gen/DfSingle.vo", "Gen/PenSeparable.vo", "Skel/CorrSolvers.vo", "Skel/GramCDProofs.vo", "Skel/GroupBCDProofs.vo", "Skel/ProxNewtonProofs.vo", "Skel/FistaProofs.vo", "Skel/GramCDAnderson.vo", "Skel/MultiTaskBCDProofs.vo", "Skel/GroupProxNewton.vo"]
+EXTRA_TARGETS = ["Skel/MockACD.vo", "Gen/KernCD.vo", "Gen/KernACD.vo", "Gen/DfSingle.vo", "Gen/PenSeparable.vo", "Skel/CorrSolvers.vo", "Skel/GramCDProofs.vo", "Skel/GroupBCDProofs.vo", "Skel/ProxNewtonProofs.vo", "Skel/FistaProofs.vo", "Skel/GramCDAnderson.vo", "Skel/MultiTaskBCDProofs.vo", "Skel/GroupProxNewton.vo", "Gen/KernPN.vo", "Gen/KernBCD.vo", "Gen/DfGroup.vo", "Gen/PenBlock.vo", "Gen/SparseOps.vo"]
 TRUSTED_BASE = [
     "Coq 8.16.1 kernel (coqc); vm_compute only in correspondence files",
     "axioms: Reals (sig_forall_dec, sig_not_dec), functional_extensionality_dep, Classical_Prop.classic",
@@ -43,6 +43,8 @@ def correspondence(tier, rng):
                 distribution=dict(skeleton_runs=dist, kernel_cases=len(kc)),
                 distinct_nontrivial=len({c[0] for c in cases}) + len({c[0] for c in kc}),
                 samples=[dict(trace=cases[0][0][:600])] + [dict(case=kc[0][0][:300])])
+    base = kernels.add_pn_kernel_corr(base, rng, 60 if tier == "quick" else 360, "C01p")
+    base = kernels.add_bcd_kernel_corr(base, rng, 70 if tier == "quick" else 420, "C01k")
     return harness_solvers.merge_corr(base, harness_solvers.solver_corr(tier, rng, "C01s"))
 
 
